@@ -8,11 +8,10 @@ PROPS = ['C%02d' % i for i in range(1, 21)]
 def run(patch):
     d = tempfile.mkdtemp(prefix='hxsa_bn_')
     try:
-        subprocess.check_call(['cp', '-r', '/repo/hotxlfp', d])
-        for extra in ('SUPPORTED_FORMULAS.md', 'README.md'):
-            shutil.copy('/repo/' + extra, d)
-        r = subprocess.run(['patch', '-p1', '-s', '-f', '-d', d, '-i', patch], capture_output=True, text=True)
-        if r.returncode != 0:
+        sys.path.insert(0, HERE)
+        from hxsa import variants
+        variants.copy_tree('/repo', d)
+        if not variants.apply_patch(d, patch):
             return patch, None
         out = {}
         for p in PROPS:
